@@ -115,6 +115,7 @@ type c02Sess struct {
 	ppp    *SessionState
 	ctx    *allocator.Context
 	ipcp   bool
+	told4  net.IP
 	bound4 net.IP
 	bound6 net.IP
 	boundP *net.IPNet
@@ -335,13 +336,29 @@ func c02Opt3(opts []byte) string {
 	return "none"
 }
 
-func c02Discover(mac net.HardwareAddr, mt byte) []byte {
+// DISCOVER / REQUEST as a client sends them; a REQUEST names the offered address in option 50
+func c02Discover(mac net.HardwareAddr, mt byte, requested net.IP) []byte {
 	b := make([]byte, 240)
 	b[0], b[1], b[2] = 1, 1, 6
 	binary.BigEndian.PutUint32(b[4:8], 0x1234)
 	copy(b[28:34], mac)
 	binary.BigEndian.PutUint32(b[236:240], 0x63825363)
-	return append(b, 53, 1, mt, 255)
+	b = append(b, 53, 1, mt)
+	if mt == 3 && requested.To4() != nil {
+		b = append(b, 50, 4)
+		b = append(b, requested.To4()...)
+	}
+	return append(b, 255)
+}
+
+func c02Handle(p *dhcp4local.Provider, pkt *dhcp4.Packet) (resp *dhcp4.Packet, err error, panicked bool) {
+	defer func() {
+		if r := recover(); r != nil {
+			panicked = true
+		}
+	}()
+	resp, err = p.HandlePacket(context.Background(), pkt)
+	return
 }
 
 func (w *c02World) op(f []string) string {
@@ -415,19 +432,24 @@ func (w *c02World) op(f []string) string {
 				resolved = dhcp.ResolveV4(s.ctx, prof)
 			}
 		}
-		if resolved == nil {
-			return strings.ToLower(f[0]) + " nil ctx4=" + c02Num(s.ctx.IPv4Address)
-		}
+		// as the component does, the packet goes to the provider even when resolution failed (Resolved = nil)
 		mt := byte(1)
 		if f[0] == "IQ" {
 			mt = 3
 		}
-		resp, err := w.prov.HandlePacket(context.Background(), &dhcp4.Packet{SessionID: s.id, MAC: s.mac.String(),
-			SVLAN: uint16(100 + s.grp), Raw: c02Discover(s.mac, mt), Resolved: resolved})
+		resp, err, panicked := c02Handle(w.prov, &dhcp4.Packet{SessionID: s.id, MAC: s.mac.String(),
+			SVLAN: uint16(100 + s.grp), Raw: c02Discover(s.mac, mt, s.told4), Resolved: resolved})
+		if panicked {
+			return strings.ToLower(f[0]) + " panic ctx4=" + c02Num(s.ctx.IPv4Address)
+		}
 		if err != nil || resp == nil || len(resp.Raw) < 28+240 {
+			if resolved == nil {
+				return strings.ToLower(f[0]) + " nil ctx4=" + c02Num(s.ctx.IPv4Address)
+			}
 			return strings.ToLower(f[0]) + " err ctx4=" + c02Num(s.ctx.IPv4Address)
 		}
 		yi := net.IP(resp.Raw[28+16 : 28+20])
+		s.told4 = append(net.IP(nil), yi...)
 		kind := "offer"
 		if f[0] == "IQ" {
 			kind = "ack"
